@@ -300,7 +300,7 @@ def main():
                 head = m.group(1)[:200]
             if rc in (124, 137) or "SIGQUIT" in logtxt[:20000] and not head:
                 # watchdog of the driver fired: deadlock only if goroutines are parked below ebu frames
-                if re.search(r"goroutine \d+ \[(sync\.Mutex\.Lock|sync\.RWMutex\.\w+|semacquire|sync\.WaitGroup\.Wait|chan receive|sync\.Cond\.Wait)[^\]]*\]:\n(?:.*\n)*?.*github\.com/jilio/ebu", logtxt):
+                if re.search(r"goroutine \d+ (?:gp=\S+ m=\S+ (?:mp=\S+ )?)?\[(sync\.Mutex\.Lock|sync\.RWMutex\.\w+|semacquire|sync\.WaitGroup\.Wait|chan receive|sync\.Cond\.Wait)[^\]]*\]:\n(?:.+\n)*?.*github\.com/jilio/ebu", logtxt):
                     wpath = os.path.join(EVID, "replays", f"{pid}-{seed}-{pname}-{sh}-hang.log")
                     os.makedirs(os.path.dirname(wpath), exist_ok=True)
                     shutil.copy(log, wpath)
